@@ -22,6 +22,12 @@ import (
 
 var c17Names = []string{"a", "b", "c", "title", "name", "n", "user", "Title", "hidden", "zz"}
 
+// c17Exotic: names whose resolution against root data is a matter of reflection rules (promoted fields of an
+// embedded struct, its type name, a nil pointer field, a struct field, a field tagged json:"-", entries of a
+// non-struct root value). For them the model does not say what Lookup must return; only the agreement of
+// EnvMap with whatever Lookup returns is checked.
+var c17Exotic = []string{"id", "ID", "Kind", "RichBase", "ptr", "sub", "-", "Skip", "1"}
+
 type mStack struct {
 	scopes []map[string]any
 	root   any
@@ -147,7 +153,7 @@ func genC17(seed uint64, run int, tier string) *RunSpec {
 	st := &StackSpec{Names: c17Names}
 	ns := 1 + r.Intn(4)
 	for i := 0; i < ns; i++ {
-		d := DataSpec{Shape: Pick(r, []string{"map", "struct", "ptr", "nil", "structmap"}), Tag: fmt.Sprintf("r%d", i), Items: 2, Variant: i}
+		d := DataSpec{Shape: Pick(r, []string{"map", "struct", "ptr", "nil", "structmap", "map", "struct", "rich", "richptr", "strmap", "intmap"}), Tag: fmt.Sprintf("r%d", i), Items: 2, Variant: i}
 		st.Roots = append(st.Roots, d)
 	}
 	n := 10 + r.Intn(50)
@@ -235,7 +241,7 @@ func c17Root(d DataSpec) (map[string]any, any) {
 	switch d.Shape {
 	case "nil":
 		return nil, nil
-	case "struct", "ptr":
+	case "struct", "ptr", "rich", "richptr", "strmap", "intmap":
 		return map[string]any{}, BuildData(d)
 	case "structmap": // what the render entry points build: the struct's JSON-tag map as root scope plus the struct
 		dd := d
@@ -289,8 +295,27 @@ func execC17(spec *RunSpec) *Result {
 			if _, bad := env[simrt.PoisonKey]; bad {
 				fail(i, op, "poison-visible", "a pooled (already Put) map is still part of a stack", "stack %d EnvMap shows the pool's poison key", s)
 			}
+			for _, n := range c17Exotic {
+				if exoticRoot(model[s].root) == "" {
+					break
+				}
+				if _, bound := model[s].env()[n]; bound {
+					continue
+				}
+				rv, rok := real[s].Lookup(n)
+				ev, eok := env[n]
+				if eok != rok || (rok && !agree(ev, rv)) {
+					fail(i, op, "envmap-mismatch", "EnvMap disagrees with Lookup ("+exoticClass(n)+", root "+exoticRoot(model[s].root)+")", "stack %d EnvMap()[%q] = (%v,%v) but Lookup gives (%v,%v)", s, n, ev, eok, rv, rok)
+				}
+			}
 			for _, n := range spec.Stack.Names {
 				mv, mok := model[s].lookup(n)
+				if exoticRoot(model[s].root) == "non-struct value" {
+					// a map/slice as root data: what the fallback finds there is reflection-rule territory too
+					if _, bound := model[s].env()[n]; !bound {
+						mv, mok = real[s].Lookup(n)
+					}
+				}
 				rv, rok := real[s].Lookup(n)
 				if mok != rok || (mok && !agree(mv, rv)) {
 					fail(i, op, "lookup-mismatch", "Lookup disagrees with the scope-stack model ("+nameClass(n)+")", "stack %d Lookup(%q) = (%v,%v), model (%v,%v)", s, n, rv, rok, mv, mok)
@@ -298,7 +323,11 @@ func execC17(spec *RunSpec) *Result {
 				}
 				ev, eok := env[n]
 				if eok != mok || (mok && !agree(ev, mv)) {
-					fail(i, op, "envmap-mismatch", "EnvMap disagrees with Lookup ("+nameClass(n)+", root "+rootClass(model[s].root)+")", "stack %d EnvMap()[%q] = (%v,%v) but Lookup gives (%v,%v)", s, n, ev, eok, mv, mok)
+					nc, rc := nameClass(n), rootClass(model[s].root)
+					if exoticRoot(model[s].root) == "non-struct value" {
+						nc, rc = "entry of a non-struct root value", "non-struct value"
+					}
+					fail(i, op, "envmap-mismatch", "EnvMap disagrees with Lookup ("+nc+", root "+rc+")", "stack %d EnvMap()[%q] = (%v,%v) but Lookup gives (%v,%v)", s, n, ev, eok, mv, mok)
 				}
 			}
 		}
@@ -537,4 +566,32 @@ func splitSimplePath(p string) []string {
 		}
 	}
 	return out
+}
+
+func exoticRoot(root any) string {
+	switch root.(type) {
+	case Rich:
+		return "struct with embedded struct"
+	case *Rich:
+		return "pointer to struct with embedded struct"
+	case map[string]string, map[int]string:
+		return "non-struct value"
+	}
+	return ""
+}
+
+func exoticClass(n string) string {
+	switch n {
+	case "id", "ID", "Kind":
+		return "promoted field of an embedded struct"
+	case "RichBase":
+		return "embedded struct by its type name"
+	case "ptr":
+		return "nil pointer-to-struct field"
+	case "sub":
+		return "struct-typed field"
+	case "-", "Skip":
+		return "field tagged json:\"-\""
+	}
+	return "entry of a non-struct root value"
 }
